@@ -159,6 +159,28 @@ func VH_C17_LocalExtraDiffers() {
 	vhAssert(len(out) >= cdStart && bytes.Equal(out[:cdStart], file[:cdStart]), "members-untouched")
 	rd, err := Read(bytes.NewReader(out), int64(len(out)))
 	vhAssert(err == nil && len(rd.File) == 2 && rd.DirLoc == int64(cdStart) && int(rd.File[1].Offset) == ms[1].off, "re-indexed-archive-reads-back")
+	// serialising members one at a time (what the streaming digesters and the
+	// truncating writer do) reproduces the archive's own bytes
+	d2, err := Read(bytes.NewReader(file), int64(len(file)))
+	vhAssert(err == nil, "archive-parses")
+	if err != nil {
+		return
+	}
+	var dumped bytes.Buffer
+	for i, zf := range d2.File {
+		n, err := zf.Dump(&dumped)
+		vhAssert(err == nil && int(n) == dumped.Len()-ms[i].off, "dump-reports-what-it-wrote")
+	}
+	vhAssert(bytes.Equal(dumped.Bytes(), file[:cdStart]), "dumped-members-are-the-archives-bytes")
+	// drop the last member: the result is a one-member archive an independent reader accepts
+	var tr bytes.Buffer
+	vhAssert(d2.Truncate(1, &tr, &tr) == nil, "truncates")
+	tb := tr.Bytes()
+	vhAssert(len(tb) > ms[1].off && bytes.Equal(tb[:ms[1].off], file[:ms[1].off]), "kept-member-bytes-first")
+	end := tb[len(tb)-22:]
+	vhAssert(binary.LittleEndian.Uint32(end) == directoryEndSignature && binary.LittleEndian.Uint16(end[10:]) == 1 && int(binary.LittleEndian.Uint32(end[16:])) == ms[1].off, "end-record-counts-one-member-directory-right-after-it")
+	rt, err := Read(bytes.NewReader(tb), int64(len(tb)))
+	vhAssert(err == nil && len(rt.File) == 1 && rt.File[0].Name == "a" && rt.DirLoc == int64(ms[1].off), "truncated-archive-reads-back")
 	vhReach("sized") // vh:require sized
 }
 
